@@ -55,9 +55,16 @@ TECH = {
  "C20": "deterministic simulation: seeded builder call histories checked by refinement against a reference model, FIR hash order behind a seeded seam",
 }
 
+AMBIENT = " In a quarter of the episodes a seeded second party shares the observed session's thread: at the call boundaries of the observed session (every 4th to 64th on average, decided by a generator reseeded from the episode seed) it takes one step of a session of its own - a compound iterator kept alive part-way, a view read out later, ill-formed datagrams, the episode's own earlier deliveries parsed again, live builders of every type measured / written / dropped"
+AMBIENT_W = ", and configurations of the same shape as the one under observation (lent by the check) measured and written"
+EXTRA = {
+ "C06": " After the sweep the builder is measured again and write_into_unchecked is handed exactly the announced size: it must return n without unwinding.",
+}
+
 def main():
     checks = []
     for pid, (level, ref, text, note) in sorted(CLAIMED.items()):
+        text = text + EXTRA.get(pid, "") + AMBIENT + (AMBIENT_W if pid in ("C06", "C17") else "") + "; the monitors judge the observed session as before, and a violation that needs the second party is reported as the episode re-run alone (process history)."
         checks.append({
             "property_id": pid,
             "quick_cmd": f"./check {pid} quick",
